@@ -216,6 +216,104 @@ class Interp(StmtMixin, ExtMixin, OpsMixin, InterpCore):
         ls = StmtMixin.live_lists(self, env)
         return ls
 
+    # rows-by-stepped-slice idiom -------------------------------------------------
+    #   for V in range(0, len(X), K):  <emit ... X[V:V+K] ...>
+    # writes the items of X in rows of K (the last row may be short): the same SChunk the append/flush idiom denotes.
+    def s_For(self, st, env):
+        sl = self.match_slice_rows(st, env)
+        if sl is None:
+            return StmtMixin.s_For(self, st, env)
+        X, K, nodes = sl
+        var, lo, hi, elem, seqv = self.loop_binder(X, st)
+        spec = {"per": K, "elem": elem, "append_stmt": None, "if_stmt": None, "remainder": False, "list": None,
+                "node": None, "emitted_in": None, "placeholder": None}
+        cl = ChunkListV(spec)
+        saved = getattr(self, "_slice_rows", {})
+        self._slice_rows = dict(saved)
+        for n in nodes:
+            self._slice_rows[id(n)] = cl
+        marks = dict((id(b), (b, len(b.pieces))) for b in self.live_buffers())
+        self.event_stack.append([])
+        try:
+            self.exec_block(st.body, env)
+        finally:
+            self._slice_rows = saved
+            evs = self.event_stack.pop()
+            spec["remainder"] = True
+        if evs:
+            self.log_event(("loop", evs))
+        emitted = [(b, b.pieces[n0:]) for (b, n0) in marks.values() if len(b.pieces) > n0]
+        if len(emitted) != 1:
+            self.err(st, "rows-by-slice loop must emit to exactly one stream")
+        b, new = emitted[0]
+        row = self.chunk_row(spec, self.expand_row(spec, SCat(new), st), st)
+        c = SChunk(var, lo, hi, row["item"], K, row["sep"], row["end"], True, seq=seqv.key() if seqv is not None else None)
+        c.prefix = row["prefix"]
+        del b.pieces[len(b.pieces) - len(new):]
+        b.pieces.append(c)
+
+    def match_slice_rows(self, st, env):
+        it = st.iter
+        if not (isinstance(it, ast.Call) and isinstance(it.func, ast.Name) and it.func.id == "range" and len(it.args) == 3
+                and not it.keywords and isinstance(st.target, ast.Name) and not st.orelse):
+            return None
+        fn = self.eval(it.func, env)
+        if not (isinstance(fn, ExtV) and fn.name == "builtins.range"):
+            return None
+        lo, hi, step = [self.eval(a, env) for a in it.args]
+        kc = step.const() if isinstance(step, Num) else None
+        lc = lo.const() if isinstance(lo, Num) else None
+        if kc is None or kc.denominator != 1 or kc < 1 or lc != 0 or not isinstance(hi, Num):
+            return None
+        K = int(kc)
+        v = st.target.id
+        nodes, inside = [], set()
+        X = None
+        for n in ast.walk(ast.Module(body=st.body, type_ignores=[])):
+            if not (isinstance(n, ast.Subscript) and isinstance(n.slice, ast.Slice)):
+                continue
+            sl = n.slice
+            if not (isinstance(sl.lower, ast.Name) and sl.lower.id == v and sl.step is None and isinstance(sl.upper, ast.BinOp)
+                    and isinstance(sl.upper.op, ast.Add)):
+                continue
+            a, b = sl.upper.left, sl.upper.right
+            if isinstance(b, ast.Name) and b.id == v:
+                a, b = b, a
+            if not (isinstance(a, ast.Name) and a.id == v) or v in _names(b) or v in _names(n.value):
+                continue
+            bv = self.eval(b, env)
+            if not (isinstance(bv, Num) and bv.const() == K):
+                continue
+            base = self.eval(n.value, env)
+            if isinstance(base, GenV):
+                return None
+            try:
+                seq = self.as_iterable(base, n)
+            except AnalysisError:
+                return None
+            if not (isinstance(seq, SeqV) and seq.kind in ("family", "seqmap", "opaque")):
+                return None
+            if not ep.equal(self.seq_len(seq), hi.rf)[0]:
+                return None
+            if X is not None and X.key() != seq.key():
+                return None
+            X = seq
+            nodes.append(n)
+            inside |= set(id(m) for m in ast.walk(n))
+        if X is None:
+            return None
+        # the loop variable is used for nothing but these slices
+        for n in ast.walk(ast.Module(body=st.body, type_ignores=[])):
+            if isinstance(n, ast.Name) and n.id == v and id(n) not in inside:
+                return None
+        return X, K, nodes
+
+    def e_Subscript(self, node, env):
+        cl = getattr(self, "_slice_rows", {}).get(id(node))
+        if cl is not None:
+            return cl
+        return InterpCore.e_Subscript(self, node, env)
+
     # chunk idiom ------------------------------------------------------------
     def s_Expr(self, st, env):
         ch = self.active_chunk(env)
@@ -485,6 +583,10 @@ class GenV(V):
 
     def __repr__(self):
         return "<generator>"
+
+
+def _names(node):
+    return set(n.id for n in ast.walk(node) if isinstance(n, ast.Name))
 
 
 class _Placeholder(SNode):
